@@ -155,7 +155,7 @@ def pSpec : P String := do
 def pRange : P Range := do
   let core ← pNat; let depth ← pNat; let offset ← pNat; let sb ← pNat; let wo ← pNat; let wb ← pNat
   pure { core, depth, offset, scaleBytes := sb, weightOffset := wo, weightBytes := wb, index := 0, slice := 0,
-         scaleCh := [], weightCh := [], cbd := 0 }
+         scaleCh := [], weightCh := [], cbd := 0, scaleData := [], weightData := [] }
 
 def addrStr (l : List AddrRange) : String := " ".intercalate (l.map fun a => s!"{a.address}:{a.length}")
 
